@@ -4,7 +4,7 @@
    the property oracle is the last-writer-wins reference [winner] over the
    generator's own list of leaf data chunks, applied to the implementation's outputs. *)
 From Coq Require Import List NArith ZArith Bool.
-From SW Require Export base.Verdict model.Chunks.
+From SW Require Export base.Verdict model.Chunks model.ChunksSeq.
 Import ListNotations.
 Local Open Scope N_scope.
 
@@ -25,6 +25,19 @@ Inductive csr_op := OpRead (n : nat) | OpSeek (off : Z) (whence : N).
 Inductive csr_obs := ObsRead (out : list N) (eof : bool) | ObsSeek (pos : Z) (err : bool) | ObsPanic.
 Record csr_case := Cs { cq_ops : list csr_op; cq_obs : list csr_obs }.
 
+(* one ChunkReadAt (over the views of the whole file, with its own chunk cache: sq_memo = it keeps what
+   SetChunk gives it, sq_slices = it answers GetChunkSlice for what it holds) and the ReadAt calls made on
+   it, in order; during call i the fetches (volume lookup / HTTP download) of the file ids so_failing fail *)
+Record sq_op := SqOp { so_close : bool; so_failing : list N; so_off : N; so_len : N; so_fill : N }.
+Record sq_ob := SqObs {
+  sb_out : list N;       (* the caller's buffer after the call *)
+  sb_n : N;
+  sb_eof : bool;         (* err == io.EOF *)
+  sb_err : N             (* 0: nil or io.EOF; 1: another error; 2: panic *)
+}.
+Record seq_case := Sq { sq_memo : bool; sq_slices : bool; sq_ops : list sq_op; sq_obs : list sq_ob }.
+Definition so_buf (o : sq_op) : list N := repeat (so_fill o) (N.to_nat (so_len o)).
+
 Record case := {
   k_ms : mstore;                  (* content of the manifest chunks of the input *)
   k_chunks : list chunk;          (* entry.Chunks *)
@@ -42,6 +55,7 @@ Record case := {
   i_xviews : list view_case;      (* ViewFromChunks on windows whose offset+size exceeds MaxInt64 *)
   i_readall : list N;             (* ReadAll(masterClient, chunks) *)
   i_csr : list csr_case;          (* ChunkStreamReader call sequences *)
+  i_seqs : list seq_case;         (* ReadAt call sequences with failing chunk fetches *)
   i_compacted : list chunk;       (* CompactFileChunks(nonManifestChunks of chunks) *)
   i_garbage : list chunk;
   i_call_keep : list chunk;       (* CompactFileChunks(chunks), manifest chunks included *)
@@ -56,6 +70,12 @@ Fixpoint all2 {A} (f : A -> A -> bool) (l1 l2 : list A) : bool :=
   match l1, l2 with
   | [], [] => true
   | x :: l1', y :: l2' => f x y && all2 f l1' l2'
+  | _, _ => false
+  end.
+Fixpoint all2h {A B} (f : A -> B -> bool) (l1 : list A) (l2 : list B) : bool :=
+  match l1, l2 with
+  | [], [] => true
+  | x :: l1', y :: l2' => f x y && all2h f l1' l2'
   | _, _ => false
   end.
 Definition chunk_eqb (a b : chunk) : bool :=
@@ -122,6 +142,14 @@ Fixpoint csr_seeks_end (total : Z) (ops : list csr_op) (pos : Z) : bool :=
   | OpSeek off wh :: r => let t := seek_target total pos off wh in (total <=? t)%Z || csr_seeks_end total r t
   end.
 
+(* ---------- ReadAt call sequences: the state-machine model ---------- *)
+Definition seq_model (src : chunk_source) (views : list chunk_view) (fs : N) (q : seq_case) : list ra_res :=
+  ra_run src (sq_memo q) (sq_slices q) views fs
+         (map (fun o => RaOp (so_close o) (so_failing o) (so_buf o) (so_off o)) (sq_ops q)) ra_new.
+Definition seq_obs_eqb (r : ra_res) (b : sq_ob) : bool :=
+  all2 N.eqb (rs_buf r) (sb_out b) && (rs_n r =? sb_n b) && Bool.eqb (rs_eof r) (sb_eof b) &&
+  (sb_err b =? (if rs_err r then 1 else 0)).
+
 (* ---------- model side ---------- *)
 Definition data_chunks (l : list chunk) : list chunk := filter (fun c => negb (c_manifest c)) l.
 
@@ -135,6 +163,7 @@ Definition corr (c : case) : bool :=
                            (vw_views vc)) (i_views c ++ i_xviews c) &&
    all2 N.eqb (read_all src (k_fuel c) (k_ms c) (k_chunks c)) (i_readall c) &&
    forallb (fun q => all2 obs_eqb (csr_model src full (cq_ops q) csr_new) (cq_obs q)) (i_csr c) &&
+   forallb (fun q => all2h seq_obs_eqb (seq_model src full (k_file_size c) q) (sq_obs q)) (i_seqs c) &&
    (let '(keep, garb) := compact_file_chunks (k_fuel c) (k_ms c) (k_chunks c) in
     all2 chunk_eqb keep (i_call_keep c) && all2 chunk_eqb garb (i_call_garb c)) &&
    forallb (fun rc => let r := read_at src full (k_file_size c) (rd_buf rc) (rd_off rc) in
@@ -189,6 +218,27 @@ Definition prop_base (c : case) : bool :=
                       (if i <? n then overlay src flat (rd_off rc + i) else nth (N.to_nat i) (rd_buf rc) 0))
             (positions len))
     (i_reads c) &&
+  (* call sequences on one reader with failing fetches: a call that returns no fetch error delivers
+     exactly what a fresh failure-free reader delivers (n, overlay bytes with zeros in holes, EOF,
+     nothing else touched) whatever happened in the calls before it; a fetch error is returned only by
+     a call during which some fetch was made to fail (so a retry without failures succeeds), and then
+     the first n cells still hold the overlay and nothing else is touched; no call panics *)
+  forallb (fun q =>
+    Nat.eqb (length (sq_obs q)) (length (sq_ops q)) &&
+    all2h (fun o b =>
+      let len := so_len o in
+      let full_n := N.min len (fs - so_off o) in
+      Nat.eqb (length (sb_out b)) (N.to_nat len) &&
+      (match sb_err b with
+       | 0 => (sb_n b =? full_n) && Bool.eqb (sb_eof b) (fs <=? so_off o + len)
+       | 1 => negb (match so_failing o with [] => true | _ => false end) && (sb_n b <=? full_n) && negb (sb_eof b)
+       | _ => false
+       end) &&
+      forallb (fun i => nth (N.to_nat i) (sb_out b) 0 =?
+                        (if i <? sb_n b then overlay src flat (so_off o + i) else so_fill o))
+              (positions len))
+      (sq_ops q) (sq_obs q))
+    (i_seqs c) &&
   (* streams: exactly the requested range, byte for byte the overlay, zeros in holes; a size of
      MaxInt64 or a range that ends beyond MaxInt64 means "to the end" *)
   forallb (fun sc =>
